@@ -15,10 +15,28 @@ package light
 //@ extern (*github.com/ipfs/go-datastore/autobatch.Datastore).Put
 //@   effect $Stored := err == nil
 
+// (call-site view: the list returned is the key set of the map the loop fills - slices.Collect(maps.Keys) -
+// hence distinct, and as many as the loop's exit condition says)
+//@ extern github.com/celestiaorg/celestia-node/share/availability/light.selectRandomSamples
+//@   ensures len(result) == (sampleCount > squareSize*squareSize ? squareSize*squareSize : sampleCount)
+// Body view: both coordinates of every candidate are drawn from the whole width of the extended square
+// ("drawn unpredictably from the whole extended square"), the draw goes on until min(sample count, area)
+// *distinct* coordinates are collected (a map keyed by coordinate), and every one lies inside the square.
 //@ func selectRandomSamples
 //@   property C03
+//@   noframe
+//@   requires squareSize > 0
+//@   callpre light.randInt: $arg0 == squareSize
+//@   checks len(samples) >= (old(sampleCount) > squareSize*squareSize ? squareSize*squareSize : old(sampleCount))
+//@   checks forall k shwap.SampleCoords :: has(samples, k) ==> 0 <= k.Row && k.Row < squareSize && 0 <= k.Col && k.Col < squareSize
+//@   loop 1: invariant samples != nil && forall k shwap.SampleCoords :: has(samples, k) ==> 0 <= k.Row && k.Row < squareSize && 0 <= k.Col && k.Col < squareSize
+//@   loop 1: invariant sampleCount == (old(sampleCount) > squareSize*squareSize ? squareSize*squareSize : old(sampleCount))
+
+// (crypto/rand.Int(max) is uniform on [0, max): assumed)
+//@ func randInt
+//@   property C03
 //@   trusted
-//@   ensures len(result) == (sampleCount > squareSize*squareSize ? squareSize*squareSize : sampleCount)
+//@   ensures 0 <= result && result < m
 
 // A fresh sampling result owes min(sample count, square area) coordinates and has none available.
 //@ func NewSamplingResult
